@@ -27,7 +27,8 @@ GHs == \E i \in Slots :
    \/ \E pf \in PfSrc : Accept(i, 0, pf, FALSE) /\ Rec(4, i, "accept", "-", 0, "-", pf)
    \/ \E src \in 1..3 : Ack(i, src, "t", FALSE) /\ Rec(5, i, "ack", "t", src, "-", None)
    \/ \E v \in {"t", "f"} : Ack(i, 0, v, FALSE) /\ Rec(5, i, "ack", v, 0, "-", None)
-GNext == \/ GHs /\ UNCHANGED <<app, ann>>
+GDrop == \E i \in Slots : ~CanDeliver(i) /\ Drop(i) /\ Rec(7, i, "drop", "-", 0, "-", None)
+GNext == \/ (GHs \/ GDrop) /\ UNCHANGED <<app, ann>>
          \/ \E i \in Slots, k \in ContactKeys : Contact(i, k) /\ Rec(6, i, "contact", k, 0, "-", None)
 GSpec == GInit /\ [][GNext]_gvars
 
